@@ -1319,6 +1319,8 @@ class Interp(object):
     def iterate(self, v, fr):
         if isinstance(v, (tuple, list, range, str, set, frozenset)):
             return list(v)
+        if v is None or isinstance(v, (bool, int, float, complex, S, C)):
+            raise PyRaise(self.make_exc('TypeError', 'object is not iterable'))
         if isinstance(v, dict):
             return list(v.keys())
         if isinstance(v, GenList):
@@ -1616,7 +1618,12 @@ class Interp(object):
 
     def s_With(self, s, env, fr):
         if len(s.items) != 1:
-            raise Unsupported('with: several items')
+            # with a as x, b as y:  ==  with a as x: with b as y:
+            inner = ast.With(items=s.items[1:], body=s.body)
+            ast.copy_location(inner, s)
+            outer = ast.With(items=s.items[:1], body=[inner])
+            ast.copy_location(outer, s)
+            return self.s_With(outer, env, fr)
         item = s.items[0]
         cm = self.eval(item.context_expr, env, fr)
         if not hasattr(cm, 'pv_enter'):
@@ -1709,10 +1716,16 @@ class _CMInstance(object):
                 I.exec_block(body[:i], self.env, self.fr)
                 self.after = body[i + 1:]
                 return I.eval(s.value.value, self.env, self.fr) if s.value.value is not None else None
-            if isinstance(s, ast.Try) and s.finalbody and len(s.body) == 1 and isinstance(s.body[0], ast.Expr) and isinstance(s.body[0].value, ast.Yield):
+            if isinstance(s, ast.Try) and s.finalbody and s.body and isinstance(s.body[-1], ast.Expr) and isinstance(s.body[-1].value, ast.Yield) \
+                    and not any(isinstance(n, (ast.Yield, ast.YieldFrom)) for t in s.body[:-1] for n in ast.walk(t)):
                 I.exec_block(body[:i], self.env, self.fr)
                 self.after = list(s.finalbody) + body[i + 1:]
-                y = s.body[0].value
+                try:
+                    I.exec_block(s.body[:-1], self.env, self.fr)
+                except PyRaise:
+                    I.exec_block(list(s.finalbody), self.env, self.fr)
+                    raise
+                y = s.body[-1].value
                 return I.eval(y.value, self.env, self.fr) if y.value is not None else None
         raise Unsupported('contextmanager shape of %s' % f.qualname)
 
